@@ -98,6 +98,8 @@ def cases(tier, seed):
                 forced.append(["mode", name, i])
             forced.append(["big", i])
             forced.append(["zero", i])
+            forced.append(["special", "parsed_same_label", i])
+            forced.append(["special", "element_bound", i])
     for (r, p) in ROI_PRE:
         forced.append(["roi", r, p, 0])
     ng, nf = N_GEN[tier] // BLOCK, N_FILES[tier] // BLOCK
@@ -461,6 +463,15 @@ def run_session(ctx, ses, tag, mode=None):
     ctx.count("subset_masks_on_foreign_dataset_with_value",
               sum(1 for i, d in enumerate(obs0["data"]) for j, s in enumerate(d["subsets"])
                   if j < len(desc["groups"]) and desc["groups"][j]["on"] != i and s["mask"][0] == "value"))
+    for i, d in enumerate(obs0["data"]):
+        for j, sub in enumerate(d["subsets"]):
+            if j >= len(desc["groups"]):
+                continue
+            g = desc["groups"][j]
+            if str(g.get("label", "")).startswith("same_label_") and g["on"] == i and sub["mask"][0] == "value":
+                ctx.count("same_label_expression_masks_with_value")
+            if str(g.get("label", "")).startswith("bound_") and g["on"] != i:
+                ctx.count("bound_element_masks_on_other_tables:" + ("value" if sub["mask"][0] == "value" else sub["mask"][1]))
     if desc.get("removed") is not None:
         # masks of the selection over the removed dataset's attribute, as seen by the datasets that stayed
         ctx.count("history_masks_over_removed_dataset_with_value",
@@ -541,6 +552,8 @@ def session_opts(case):
         return {"big": True, "n_data": 1 + case[1] % 2}
     if kind == "zero":
         return {"zero_size": True}
+    if kind == "special":
+        return {"special": case[1]}
     raise ValueError(case)
 
 
@@ -655,7 +668,13 @@ def floors(counters, tier):
            ["categorical_order:" + m for m in ("default", "all_present", "with_absent")] + \
            ["%s_style:%s:%s" % (w, a, e) for w in ("data", "group") for a in ("alpha", "linewidth", "markersize")
             for e in ("falsy", "max")]
-    need += ["variant:" + v for v in ("rows>=100", "many_columns", "zero_size")]
+    need += ["variant:" + v for v in ("rows>=100", "many_columns", "zero_size", "same_label_references",
+                                      "element_bound_next_to_longer_tables")]
+    if counters.get("same_label_expression_masks_with_value", 0) < 3:
+        out.append("fewer than 3 evaluable expressions over same-labelled references compared")
+    if counters.get("bound_element_masks_on_other_tables:IncompatibleAttribute", 0) + \
+            counters.get("bound_element_masks_on_other_tables:value", 0) < 2:
+        out.append("fewer than 2 masks of a bound element selection observed on other tables")
     # variants that come with the random composition: floors on the families, not on every member
     for fam, least in (("variant:dtype:", 10), ("variant:layout:", 10), ("variant:scale:", 10), ("variant:unit_length_axis", 1),
                        ("variant:duplicate_component_label", 1)):
